@@ -250,6 +250,16 @@ int main(int argc, char** argv) {
 #endif
   sh = (shared_t*)mmap(NULL, sizeof(shared_t), PROT_READ | PROT_WRITE, MAP_SHARED | MAP_ANONYMOUS, -1, 0);
   if (!f_in_heap || !f_usable || !f_heap || !f_visit) { printf("{\"mode\":\"%s\",\"infra\":\"mimalloc symbols not found: the override library is not loaded\"}\n", mode); return 2; }
+  if (argc > 2 && strcmp(argv[2], "codes") == 0) {
+    /* only the malformed / oversized requests through the overridden entry points (used by the C06 check) */
+    pid_t pid = fork(); if (pid == 0) { int rc = standard_codes(); _exit(rc); } int st = 0; waitpid(pid, &st, 0);
+    if (!(WIFEXITED(st) && (WEXITSTATUS(st) == 0 || WEXITSTATUS(st) == 1))) viol("malformed requests through the overridden entry points: process died (status 0x%x)", st);
+    sh->pairs = 30; sh->ok = sh->nviol ? 0 : 30; sh->nontrivial = 30;
+    printf("{\"mode\":\"%s\",\"pairs\":%ld,\"ok\":%ld,\"nontrivial\":%ld,\"violations\":[", mode, sh->pairs, sh->ok, sh->nontrivial);
+    for (int i = 0; i < sh->nviol; i++) { printf("%s\"", i ? "," : ""); for (const char* c = sh->viol[i]; *c; c++) { if (*c == '"' || *c == '\\') putchar('\\'); putchar(*c); } printf("\""); }
+    printf("]}\n");
+    return sh->nviol > 0 ? 1 : 0;
+  }
   int only_a = argc > 2 ? atoi(argv[2]) : -1, only_s = argc > 3 ? atoi(argv[3]) : -1, only_r = argc > 4 ? atoi(argv[4]) : -1;
   for (int a = 0; a < NA; a++) for (int si = 0; si < NS; si++) for (int r = 0; r < NR; r++) {
     if ((only_a >= 0 && a != only_a) || (only_s >= 0 && si != only_s) || (only_r >= 0 && r != only_r)) continue;
